@@ -87,7 +87,33 @@ let history_step name (gs : string -> string) (gi : string -> int) (outs : strin
       let pre = mk ~sr:(z (gi "SR")) ~w:(z (gi "wrap")) () in
       let (post, _) = step pre (HConfigure (z (gi "m"))) in
       if iz post.hSR <> oi 0 || iz post.hwrap <> oi 1 then
-        bad (Printf.sprintf "rows,wrap=%d,%d-model=%d,%d" (oi 0) (oi 1) (iz post.hSR) (iz post.hwrap)) else []
+        bad (Printf.sprintf "rows,wrap=%d,%d-model=%d,%d" (oi 0) (oi 1) (iz post.hSR) (iz post.hwrap))
+      else if List.length outs > 2 then begin
+        (* capacity (FpCap.cstep, the subject of C06_histories_allocation_partial): a configure_wrap that fits into the
+           capacity keeps the allocation; otherwise the new allocation (capacity chosen by std: observed) holds the rows *)
+        let (cpost, _) = cstep (z k) pstF pstU { c_h = pre; c_scap = z (gi "scap") } (CBase (HConfigure (z (gi "m")), z (oi 2))) in
+        if iz cpost.c_scap <> oi 2 then
+          bad (Printf.sprintf "capacity-after=%d-model=%d(rows=%d,capacity-before=%d)" (oi 2) (iz cpost.c_scap) (oi 0) (gi "scap"))
+        else []
+      end else []
+  | "exact" ->
+      (* clone: the copy of the sequence matrix is an exact allocation (fp_clone_allocation_exact) *)
+      let pre = mk ~sr:(z (gi "SR")) () in
+      let (cpost, _) = cstep (z k) pstF pstU { c_h = pre; c_scap = z (-7) } CCloneSeq in
+      if iz cpost.c_scap <> oi 0 then
+        bad (Printf.sprintf "clone-capacity=%d-model=%d(the-copy-is-not-an-exact-allocation)" (oi 0) (iz cpost.c_scap)) else []
+  | "newseq" when not panicked ->
+      (* StripedSequence::new(DenseMatrix::new(rows), L): Err(InvalidData) iff rows * C < L; wrap = 0 *)
+      let err = (List.hd outs = "E") in
+      let capobs = if err then 0 else oi 1 in
+      let (cpost, _) = cstep (z k) pstF pstU { c_h = mk (); c_scap = z (-7) } (CNewSeq (z (gi "rows"), z (gi "L"), z capobs)) in
+      let err_model = (iz cpost.c_h.hSR = -7) in
+      if err <> err_model then bad (Printf.sprintf "error=%b-model=%b" err err_model)
+      else if err then []
+      else if iz cpost.c_h.hSR <> oi 0 || iz cpost.c_h.hwrap <> oi 2 || iz cpost.c_h.hL <> gi "L" then
+        bad (Printf.sprintf "rows,wrap=%d,%d-model=%d,%d" (oi 0) (oi 2) (iz cpost.c_h.hSR) (iz cpost.c_h.hwrap))
+      else if iz cpost.c_scap <> oi 1 then bad (Printf.sprintf "capacity=%d-below-rows=%d" (oi 1) (oi 0))
+      else []
   | ("score" | "uscore") when List.hd outs <> "U" && (gs "C" = "" || gi "C" = 32) ->
       let pre = mk ~l:(z (gi "L")) ~sr:(z (gi "SR")) ~w:(z (gi "wrap")) ~m:(z (gi "M")) () in
       let f32 = gi "es" = 4 in
@@ -302,7 +328,16 @@ let handle_record (r : string) : issue list =
                 let should_panic = arg >= rows0 || arg2 >= c in
                 if should_panic <> panicked then add [Guard (Printf.sprintf "set:panic-%b-model-%b(%s)" panicked should_panic params)]
             | _ -> ())
-       | _ -> ());   (* exact, pssm, resz, scan, gibbs, count, setup: only the sanitizer verdict counts *)
+       | "exact" ->
+           (* exact-size copies (`clone`) of every matrix of the history: a Vec clone holds exactly rows() rows, which
+              is what makes an access to row rows() leave the ALLOCATION in the children (guard page, redzone) *)
+           List.iteri (fun k key ->
+             if oi k <> gi key then
+               add [Guard (Printf.sprintf "exact:clone-capacity-%d-rows-%d(%s:the-copy-is-not-an-exact-allocation)" (oi k) (gi key) key)])
+             ["SR"; "FR"; "UR"; "PR"; "DR"]
+       | "newseq" ->
+           if panicked then add [Guard ("newseq:unexpected-panic(" ^ params ^ ")")]
+       | _ -> ());   (* pssm, resz, scan, gibbs, count, setup: only the sanitizer verdict counts *)
       !issues
   | _ -> if r = "-" then [] else [Guard ("bad-record:" ^ r)]
 
@@ -440,7 +475,7 @@ let () =
           Printf.printf "%s DIFF implementation-did-not-terminate asan=%s rel=%s dbg=%s\n" id asan rel dbg
         else if invariants <> [] then
           Printf.printf "%s PROPFAIL %s\n" id (List.hd invariants)
-        else if asan = "NOASAN" || rel = "NOASAN" || msan = "NOMSAN" then
+        else if asan = "NOASAN" || rel = "NOASAN" || msan = "NOMSAN" || dbg = "NOASAN" || dbg2 = "NOASAN" then
           Printf.printf "%s DIFF no-sanitizer-verdict(ASan-build-missing)\n" id
         else if List.exists snd model_bad then
           Printf.printf "%s DIFF model-predicts-access-past-the-allocation-sanitizer-clean:%s\n" id
